@@ -2,7 +2,7 @@
 import os
 from mirlib import *
 from ranges import *
-import factsbuild, r_encclass, r_state, r_effect
+import factsbuild, r_encclass, r_state, r_effect, r_kernel, scan
 from paths import loop_heads
 
 MANIFEST = {
@@ -19,9 +19,15 @@ MANIFEST = {
             'table-decided character; (D3) the range-decided character classes of every encoder (constant foldings, unmappable-by-range sets, '
             'ISO-2022-JP state classes) extracted from MIR are identical in default, fast and less-slow builds; the stride kernels of default and '
             'simd-accel have the same signatures, their "may store beyond the reported count" difference is reported and consumed by C05/C15. '
-            'Equality of the arithmetic in alternative function bodies (shift_jis_to_euc_jp etc.) and of SIMD lane arithmetic is numerical and not decided.',
+            '(D4) what differs between the default and simd-accel builds at buffer level — the as_chunks iterator kernels (single vs double/quad '
+            'strides), the stride functions (ALU all()/tail search vs SIMD masks) — and the scalar automata they hand over to (the built-in '
+            'UTF-8 validator that the 64-byte SIMD-validator threshold switches to, convert_utf8_to_utf16_up_to_invalid, utf16_valid_up_to, the '
+            'bidi/Latin1 byte automata) are each decided against the same definition in every family (R-KERNEL/R-STRIDE part coverage, order, '
+            'position accounting, stride-test coverage; R-SCAN acceptance/all-clear/rejection, see C14-D5/D6), so the families agree wherever '
+            'those rules decide. Equality of the arithmetic in alternative function bodies (shift_jis_to_euc_jp etc.) and of SIMD lane '
+            'arithmetic is numerical and not decided.',
     'note': 'Trusted: rustc const evaluation, mirx, rule library, tests/test_data/*_in.txt + *_in_ref.txt as copies of the WHATWG indexes, the Standard\'s index-pointer rules as transcribed here.',
-    'technique': 'exhaustive data-vs-data agreement over const-evaluated statics per feature configuration + sibling comparison of extracted classes',
+    'technique': 'exhaustive data-vs-data agreement over const-evaluated statics per feature configuration + sibling comparison of extracted classes + per-family must-pass-through / accounting rules on the iterator kernels and abstract interpretation of the scalar automata',
 }
 CONFIGS = {'quick': ['default', 'fast', 'lessslow', 'simd', 'noalloc'],
            'thorough': ['default', 'fast', 'lessslow', 'simd', 'noalloc', 'simdstd', 'fast-hangul', 'fast-hanja', 'fast-kanji', 'fast-gb', 'fast-big5']}
@@ -250,6 +256,13 @@ def run(rep, facts, tier):
                        'range-decided character classes differ between default and %s: %r vs %r' % (c, {x: y for x, y in base[k].items() if prof.get(k, {}).get(x) != y},
                                                                                                        {x: y for x, y in prof.get(k, {}).items() if base[k].get(x) != y}),
                        None, {'classes': len(base[k])}, c)
+    # D4: the buffer-level machinery that differs between the default and the simd-accel build (iterator kernels, stride functions) and
+    # the scalar automata that the SIMD UTF-8 validator / stride kernels hand over to are decided by the same rules in each family
+    for c, f in facts.items():
+        if c in ('default', 'simd', 'simdstd', 'noalloc'):
+            r_kernel.run(rep, f, c, 'R-KERNEL', ['validate', 'copy', 'classify'])
+            scan.run_specs(rep, f, c, 'R-SCAN', ['utf_8::utf8_valid_up_to', 'utf_8::convert_utf8_to_utf16_up_to_invalid', 'mem::utf16_valid_up_to',
+                                                 'mem::is_utf8_bidi', 'mem::is_str_bidi', 'mem::is_utf8_latin1_impl'])
     if 'default' in facts and 'simd' in facts:
         d, s = facts['default'], facts['simd']
         for k in ('ascii_to_ascii_stride', 'ascii_to_basic_latin_stride', 'basic_latin_to_ascii_stride'):
